@@ -106,7 +106,7 @@ pub fn generate_arrays(rng: &mut Rng, thorough: bool, out: &mut Out) {
         };
         let (count, deg) = match rng.below(5) {
             0 => (rng.range(1, 50) as u64, 360.0),
-            1 => (rng.range(2, 50) as u64, *rng.pick(&[180.0, 90.0, 1e-3, 359.999])),
+            1 => (rng.range(2, 50) as u64, *rng.pick(&[180.0, 90.0, 1e-3, 359.999, 359.99995, 360.0 - 1e-7, 359.9999, 359.99999999999994, 360.0 - 1e-12])),
             2 => (rng.range(2, 12) as u64, rng.uniform(360.001, 500.0)), // must panic
             _ => (rng.range(2, 50) as u64, rng.uniform(0.001, 360.0)),
         };
